@@ -1157,7 +1157,11 @@ def __lshift__(self, other, start_pos=None):
                     a_max = self.a_fiber.maxCoord()
                     if b_pos == 0 and a_max is not None and compressed_output:
                         inserting = b_coord < a_max
-                        assert insert_pos is not None
+
+                        # The shape is only needed to place the inserted
+                        # elements in the write trace
+                        assert insert_pos is not None \
+                            or not (inserting and a_write_traced)
 
                     # Read the B coordinate
                     if b_traced:
